@@ -24,6 +24,7 @@ package runner
 //@ pred passed(e error, t *task.Task) := e == nil || (exitOK(e) && t.AllowFailure)
 
 //@ func (*TaskRunner).execute
+//@   ghostlocal lastOut []byte
 //@   requires r != nil && t != nil && (job != nil ==> compiled[job]) && compiledClosed()
 //@   modifies t.Start, t.End, t.ExitCode, t.Errored, t.Error, runN, runJob, runErr, bufLen, interp.Runner.Dir, interp.Runner.Env, cdom, cval, executor.Job.Dir, executor.DefaultExecutor.*
 //@   ensures #log-prefix runN >= old(runN) && (forall i int :: i < old(runN) ==> runJob[i] == old(runJob[i]) && runErr[i] == old(runErr[i]))
@@ -45,6 +46,11 @@ package runner
 //@     invariant #C06.consecutive forall i int :: old(runN) <= i && i + 1 < runN ==> runJob[i+1] == runJob[i].Next
 //@     invariant #C06.all-pass forall i int :: old(runN) <= i && i < runN ==> passed(runErr[i], t)
 //@     invariant #C06.position (runN == old(runN) ==> nextJob == job) && (runN > old(runN) ==> nextJob == runJob[runN-1].Next)
+//@     invariant #C11.previous-output prevOutput == lastOut
+//@   callsite Set
+//@     requires #C11.output-of-previous-command arg0 == "Output" && arg1 == boxstr(tostring(lastOut)) && recv == nextJob.Vars
+//@   callsite Execute
+//@     ghost lastOut = result
 
 // ---- the pieces of (*TaskRunner).Run
 // runnerOK: the runner's containers exist and every registered context has an environment
@@ -174,9 +180,15 @@ package runner
 //@     invariant #log-prefix forall i int :: i < old(runN) ==> runJob[i] == old(runJob[i]) && runErr[i] == old(runErr[i])
 //@     invariant #C06.count runN >= old(runN) && runN <= old(runN) + rangeindex + 1
 
+// storeTaskOutput: the captured stdout goes into the runner's env (under exportAs if given) and variables
 //@ func (*TaskRunner).storeTaskOutput
 //@   requires r != nil && t != nil && r.env != nil && r.variables != nil
-//@   nomod
+//@   modifies cdom, cval
+//@   ensures #C11.export-as-wins t.ExportAs != "" ==> cdom[r.env][t.ExportAs]
+//@   callsite Set#1
+//@     requires #C11.env-gets-stdout recv == r.env && (t.ExportAs != "" ==> arg0 == t.ExportAs)
+//@   callsite Set#2
+//@     requires #C11.variables-get-stdout recv == r.variables
 
 // call-site protocol of Run (C06): ghost results of the phases of one activation
 //@ ghost gCondMet bool
@@ -220,7 +232,10 @@ package runner
 //@   callsite execute
 //@     requires #C06.commands-after-before calls(before) == 1 && gBeforeErr == nil && calls(CompileTask) == 1 && gCompileErr == nil && calls(execute) == 0
 //@     ghost gExecErr = result
+//@   callsite storeTaskOutput
+//@     requires #C11.stored-only-after-success calls(execute) == 1 && gExecErr == nil && calls(storeTaskOutput) == 0
 //@   callsite after
+//@     requires #C11.stored-before-after-hooks calls(storeTaskOutput) == 1
 //@     requires #C09.same-env arg3 == env && arg4 == vars && arg2 == execContext
 //@     requires #C06.after-only-after-success calls(execute) == 1 && gExecErr == nil && calls(after) == 0
 
